@@ -102,13 +102,6 @@ pub fn c02_uri_n10() {
     uri_body::<10>()
 }
 
-// @h prop=C02,C20:thorough tier=thorough kind=check timeout=2400 bound="Uri text <= 16 bytes" encodes="same functions as c02_uri_n10"
-#[cfg_attr(kani, kani::proof)]
-#[cfg_attr(kani, kani::unwind(18))]
-pub fn c02_uri_n16() {
-    uri_body::<16>()
-}
-
 // @h prop=C02,C20:thorough tier=quick kind=check bound="IriRef text <= 10 bytes (UTF-8, incl. 2-4 byte scalars)" encodes="same parse::* functions via RiRefImpl for IriRef;IriRef::parts"
 #[cfg_attr(kani, kani::proof)]
 #[cfg_attr(kani, kani::unwind(12))]
@@ -128,13 +121,6 @@ pub fn c02_iriref_n14() {
 #[cfg_attr(kani, kani::unwind(10))]
 pub fn c02_iri_n8() {
     iri_body::<8>()
-}
-
-// @h prop=C02 tier=thorough kind=check timeout=2400 bound="Iri text <= 14 bytes" encodes="same as c02_iri_n8"
-#[cfg_attr(kani, kani::proof)]
-#[cfg_attr(kani, kani::unwind(16))]
-pub fn c02_iri_n14() {
-    iri_body::<14>()
 }
 
 // @h prop=C02 tier=quick kind=check bound="UriRefBuf text <= 10 bytes (owned view)" encodes="RiRefImpl for UriRefBuf (own impl);UriRefBuf deref accessors"
